@@ -20,8 +20,8 @@ EXPLANATION = ('theorems (PcbV.Props.C10 on PcbV.Model.Heap): on every well-form
 TRUSTED_BASE = ['model PcbV.Model.Heap is a hand transcription of strings.py StringSpace/String.lset/midset, '
                 'memory.py DataSegment (check_free, let_, lset_, rset_, mid_, swap_, fre_, clear), scalars.py, '
                 'arrays.py and of the evaluation-stack discipline of expressions.py',
-                'needs pending fixes C10-collector, C10-stack-unwind, C10-string-function-roots, '
-                'C10-midset-source-root (and C10-deffn-saved-roots for the DEF FN histories)']
+                'needs pending fixes C10-collector, C10-stack-unwind, C10-midset-source-root '
+                '(and C10-deffn-saved-roots for the DEF FN histories)']
 ASSUMPTIONS = ['string arrays are one-dimensional, OPTION BASE 0; memory sizes leave FRE non-negative',
                'FIELD strings are not exercised (C25)']
 
@@ -402,7 +402,7 @@ def rand_op(rng, small, extended=False, lines=()):
         return ('let', rand_dst(rng), rand_expr(rng, small, 0, extended))
     if r < 0.62:
         num = rng.choice([None, None, 0, 1, 2, 5, 30, 255, 256])
-        return ('mid', rand_dst(rng), rng.choice([0, 1, 1, 1, 2, 3, 7, 30, 200]), num,
+        return ('mid', rand_dst(rng), rng.choice([0, 1, 1, 1, 1, 2, 3, 7, 30, 200, 256]), num,
                 rand_expr(rng, small, 1, extended, True))
     if r < 0.72:
         return ('lset', rand_dst(rng), rng.random() < 0.5, rand_expr(rng, small, 1, extended, True))
@@ -590,6 +590,8 @@ class Runner(object):
                 cur = ref.read(op[1])
                 n = 255 if op[3] is None else op[3]
                 if n > 255:
+                    raise Deterministic(5)
+                if not 1 <= op[2] <= 255:
                     raise Deterministic(5)
                 if n > 0 and not 1 <= op[2] <= len(cur):
                     raise Deterministic(5)
